@@ -154,6 +154,23 @@ func c18accessors(list []*network.ServerIdentity) string {
 	return ""
 }
 
+// c18devFull: /dev/full exists and behaves (a write to it fails)
+var c18devFullOnce sync.Once
+var c18devFullOK bool
+
+func c18devFull() bool {
+	c18devFullOnce.Do(func() {
+		f, err := os.OpenFile("/dev/full", os.O_WRONLY, 0)
+		if err != nil {
+			return
+		}
+		_, werr := f.Write([]byte("x"))
+		f.Close()
+		c18devFullOK = werr != nil
+	})
+	return c18devFullOK
+}
+
 func c18noteSig(note string) string {
 	if strings.HasPrefix(note, "service-key-accessor") {
 		return "service-key-accessor"
@@ -234,6 +251,18 @@ func c18readPrivate(file string) (dump string, hc *app.CothorityConfig) {
 	d, _ := c18dump([]*network.ServerIdentity{si})
 	if a := c18accessors([]*network.ServerIdentity{si}); a != "" {
 		c18accessorNote.Store(a)
+	}
+	// the URL of the identity (documented on CothorityConfig): the configured URL; without one, a server that has a
+	// WebSocket TLS key announces https://<host>:<port+1>
+	want := hc.URL
+	if hc.WebSocketTLSCertificateKey != "" && hc.URL == "" {
+		if p, err := strconv.Atoi(si.Address.Port()); err == nil {
+			want = fmt.Sprintf("https://%s:%d", si.Address.Host(), p+1)
+		}
+	}
+	if si.URL != want {
+		c18accessorNote.Store(fmt.Sprintf("url-derivation: URL=%q WebSocketTLSCertificate=%q WebSocketTLSCertificateKey=%q Address=%q give the identity the URL %q, expected %q",
+			hc.URL, hc.WebSocketTLSCertificate, hc.WebSocketTLSCertificateKey, hc.Address, si.URL, want))
 	}
 	return d, hc
 }
@@ -687,6 +716,13 @@ func c18exec(c *h.Ctx, cs *h.Case) {
 					obs = "save-err"
 					return
 				}
+				// a write fault after the file was created: a device without room. Save must say so - a Save that
+				// returns nil has written what was saved (checked below on file2)
+				if c18devFull() {
+					if err := g.Save(suite, "/dev/full"); err == nil {
+						cs.Fail("save-error-dropped", "Group.Save to /dev/full (every write fails with ENOSPC) returned nil: a failed or partial write of a group definition is reported as success")
+					}
+				}
 				second, g2, note := c18readGroup(file2)
 				if strings.HasPrefix(second, "io-error") {
 					// work directory swept by a concurrent run of this check: save and read once more
@@ -732,7 +768,9 @@ func c18exec(c *h.Ctx, cs *h.Case) {
 			c18ensure(file, text)
 			c18accessorNote.Store("")
 			first, hc := c18readPrivate(file)
-			if a, _ := c18accessorNote.Load().(string); a != "" {
+			if a, _ := c18accessorNote.Load().(string); strings.HasPrefix(a, "url-derivation") {
+				cs.Fail("url-derivation", a)
+			} else if a != "" {
 				cs.Fail("service-key-accessor", a)
 			}
 			registryOracle("p", first)
@@ -753,6 +791,11 @@ func c18exec(c *h.Ctx, cs *h.Case) {
 			if hc != nil && first != "panic" {
 				file2 := newFile(".private.toml")
 				os.MkdirAll(filepath.Dir(file2), 0700)
+				if c18devFull() {
+					if err := hc.Save("/dev/full"); err == nil {
+						cs.Fail("save-error-dropped", "CothorityConfig.Save to /dev/full (every write fails with ENOSPC) returned nil")
+					}
+				}
 				if err := hc.Save(file2); err != nil {
 					cs.Fail("write-read-differs", "saving the private configuration failed: "+err.Error())
 				} else if d, _ := c18readPrivate(file2); d != first {
@@ -1543,10 +1586,18 @@ func (g *c18genT) privateText(maxSvc int) (string, string) {
 	if g.r.Intn(3) == 0 {
 		fields = append(fields, "ListenAddress = "+c18quote(g.pick("", "0.0.0.0:7000", "127.0.0.1")))
 	}
-	if g.r.Intn(3) == 0 {
+	// every subset of {certificate, key} (the URL above is present or absent independently)
+	switch g.r.Intn(7) {
+	case 0, 1:
 		fields = append(fields, "WebSocketTLSCertificateKey = "+c18quote(g.pick("string://key", "file://k.pem", "k.pem")))
-		fields = append(fields, "WebSocketTLSCertificate = "+c18quote("string://cert"))
+		fields = append(fields, "WebSocketTLSCertificate = "+c18quote(g.pick("string://cert", "file://c.pem", "c.pem")))
 		tag += "+wstls"
+	case 2:
+		fields = append(fields, "WebSocketTLSCertificateKey = "+c18quote(g.pick("string://key", "file://k.pem", "k.pem")))
+		tag += "+wskey"
+	case 3:
+		fields = append(fields, "WebSocketTLSCertificate = "+c18quote(g.pick("string://cert", "file://c.pem", "c.pem")))
+		tag += "+wscert"
 	}
 	g.r.Shuffle(len(fields), func(a, b int) { fields[a], fields[b] = fields[b], fields[a] })
 	text := "# private configuration\n" + strings.Join(fields, "\n") + "\n"
@@ -1666,6 +1717,23 @@ func c18generate(c *h.Ctx, yield func(*h.Case)) {
 		emitGroup("corpus-case-only-names", ctxt, 50, true, "Ed25519")
 		emitPrivate("corpus-case-only-names", cptxt, 50, true)
 		resaveHistory = ""
+		// the URL a server announces: every subset of {URL, WebSocket TLS certificate, WebSocket TLS key} (the key alone
+		// decides whether https://host:port+1 is derived) x two kinds of address
+		for sub := 0; sub < 8; sub++ {
+			for _, addr := range []string{"tls://127.0.0.1:7770", "tcp://example.org:65534"} {
+				t := fmt.Sprintf("Suite = \"Ed25519\"\nPublic = \"%s\"\nPrivate = \"%s\"\nAddress = \"%s\"\nDescription = \"d\"\n", kp.pub, kp.priv, addr)
+				if sub&1 != 0 {
+					t += "URL = \"http://example.org:80\"\n"
+				}
+				if sub&2 != 0 {
+					t += "WebSocketTLSCertificate = \"string://cert\"\n"
+				}
+				if sub&4 != 0 {
+					t += "WebSocketTLSCertificateKey = \"string://key\"\n"
+				}
+				emitPrivate("corpus-url-derivation", t, 4, false)
+			}
+		}
 		// a big group (the order of the identities is the order of the file, whatever the size)
 		g.forceN = 12
 		btxt, _ := g.groupText(0, "Ed25519")
